@@ -1320,6 +1320,49 @@ func scripted() []Input {
 	return out
 }
 
+// enumerate: EVERY history of length 1..maxLen over one URL and the alphabet
+// {serve max-age=1000, serve no-store, serve (no headers), serve no-cache,max-age=1000, serve 404+max-age,
+//
+//	load, tick 1000}, memory engine without embedded documents.
+func enumerate(maxLen int) []Input {
+	a := "http://a.test/d1"
+	const nsym = 7
+	var out []Input
+	for l := 1; l <= maxLen; l++ {
+		total := 1
+		for i := 0; i < l; i++ {
+			total *= nsym
+		}
+		for code := 0; code < total; code++ {
+			in := Input{Kind: "history", Cfg: Cfg{Mode: 2}}
+			c, v := code, 0
+			for i := 0; i < l; i++ {
+				sym := c % nsym
+				c /= nsym
+				v++
+				switch sym {
+				case 0:
+					in.Ops = append(in.Ops, Op{T: "serve", U: a, Code: 200, JSON: true, V: v, P: &Policy{K: pMaxAge, N: 1000}})
+				case 1:
+					in.Ops = append(in.Ops, Op{T: "serve", U: a, Code: 200, JSON: true, V: v, P: &Policy{K: pNoStore}})
+				case 2:
+					in.Ops = append(in.Ops, Op{T: "serve", U: a, Code: 200, JSON: true, V: v, P: &Policy{K: pNone}})
+				case 3:
+					in.Ops = append(in.Ops, Op{T: "serve", U: a, Code: 200, JSON: true, V: v, P: &Policy{K: pNoCacheMaxAge, N: 1000}})
+				case 4:
+					in.Ops = append(in.Ops, Op{T: "serve", U: a, Code: 404, JSON: true, V: v, P: &Policy{K: pMaxAge, N: 1000}})
+				case 5:
+					in.Ops = append(in.Ops, Op{T: "load", U: a})
+				default:
+					in.Ops = append(in.Ops, Op{T: "tick", Dt: 1000})
+				}
+			}
+			out = append(out, in)
+		}
+	}
+	return out
+}
+
 // ---------------------------------------------------------------- driver
 
 func nontrivial(r *result) bool {
@@ -1443,6 +1486,14 @@ func Run(cfg *common.Config) (*common.Report, error) {
 			return nil, err
 		}
 	}
+	maxLen := cfg.Pick(3, 4)
+	enum := enumerate(maxLen)
+	for _, in := range enum {
+		if err := g.addHistory(in); err != nil {
+			return nil, err
+		}
+	}
+	rep.Notes = append(rep.Notes, fmt.Sprintf("small scope: all %d histories of length 1..%d over one URL and 7 symbols (4 header sets, 404, load, tick) were enumerated (memory engine)", len(enum), maxLen))
 	n := cfg.Pick(1600, 16000)
 	for i := 0; i < n; i++ {
 		if err := g.addHistory(g.genHistory()); err != nil {
